@@ -15,8 +15,8 @@ KQ == [n |-> 3, d |-> 2]
 UniverseAll == {"s1", "s2", "s3", "s4"}
 \* schedule matrix (A), one row per station, NT = 3 periods; rows are handed to the network in ITS station order
 SchedAll == [s1 |-> <<3, 5, 7>>, s2 |-> <<11, 13, 17>>, s3 |-> <<19, 23, 29>>, s4 |-> <<31, 37, 41>>]
-TimesAll == {<<>>, <<0>>, <<1, 2>>, <<0, 2>>}          \* <<>> = None (all periods)
-TimesTwo == {<<>>, <<0, 2>>}
+TimesAll == {<<>>, <<0>>, <<1, 2>>, <<0, 2>>, <<0, 0, 2>>}          \* <<>> = None (all periods); a period may be asked for twice
+TimesTwo == {<<>>, <<0, 2>>, <<0, 0, 2>>}
 
 \* registration orders; "s4" is usually not registered, so currents mentioning it are refused (KeyError)
 InitOne == {<<"s2", "s3", "s1">>}
